@@ -421,6 +421,40 @@ def rule_irrefutable(ctx):
               detail={"callers": sorted(callers)})
 
 
+def rule_inhabitation(ctx):
+    """"every reported missing pattern denotes at least one value": the enumeration of constructors must skip empty payload types"""
+    rule = "inhabitation"
+    facts = ctx.facts
+    ctx.rule(rule, "HeadSpace::constructors, which enumerates the shapes a value of a data type can have, looks at the payload type of "
+                   "each constructor (a constructor whose payload type is empty has no values and must not be enumerated); an "
+                   "enumeration that ignores the payload types reports missing patterns that denote no value and rejects exhaustive "
+                   "matches over types with empty components")
+    fn = CV + "HeadSpace::constructors"
+    h = ctx.need_hir(rule, fn)
+    if h is None:
+        return
+    loc = facts.bodies()[fn]["loc"]
+    m = A.find_match_on(h["body"], lambda n: True)
+    for a in m["arms"]:
+        if _v(a["pat"]) != "Data":
+            continue
+        ignored = False
+        for c in H.walk(a["body"]):
+            if H.kind(c) == "Closure":
+                for p in c.get("params") or []:
+                    q = H.peel(p) if not isinstance(p, dict) or "pat" not in p else p["pat"]
+                    kids = [x for x in H.walk(q) if H.kind(x) in ("Bind", "Wild")]
+                    if any(H.kind(x) == "Wild" and "TypeId" in (x.get("ty") or "") for x in kids):
+                        ignored = True
+        if ignored:
+            ctx.violation(rule, "constructors:Data:payload-type-ignored", "HeadSpace::constructors enumerates every declared constructor "
+                          "of a data type and ignores its payload type (`(name, _)`): the matrix is not inhabitation-aware, so "
+                          "`| +None() => ..` on `data | +None : Unit | +Some : Void end` is rejected with the missing pattern "
+                          "`+Some(_)`, which denotes no value", [loc[0], a["ln"]])
+        else:
+            ctx.ok(rule, "constructors:Data:payload-type-examined")
+
+
 def rule_binder_coverage(ctx):
     """every binder position of the typed language is validated (a binder outside `match` is a one-clause match)"""
     rule = "binder-coverage"
@@ -509,6 +543,7 @@ def run(ctx):
     rule_gate(ctx)
     rule_binder_coverage(ctx)
     rule_irrefutable(ctx)
+    rule_inhabitation(ctx)
     ctx.assume("the pattern-matrix algorithm U(P, n, E) as audited is sound and complete (Maranget); agreement with brute-force enumeration "
                "is NOT decided; run-time arm selection is the Assign judgment of C02")
     return {}
